@@ -220,6 +220,9 @@ var ErrSkip = errors.New("op not applicable in this state")
 // Apply performs op and returns a short result description (commit id etc).
 func (l *Lake) Apply(ctx context.Context, op Op) (string, error) {
 	switch op.Kind {
+	case "query":
+		vals, err := l.Query(ctx, op.Name)
+		return "Q:" + strings.Join(vals, ","), err
 	case "createpool":
 		keys, err := order.ParseSortKeys(op.Key)
 		if err != nil {
@@ -358,7 +361,7 @@ func (l *Lake) resolveObjs(ctx context.Context, op Op) ([]ksuid.KSUID, error) {
 // commit indices) into ids using the current state, so that applying it later
 // is a single API-level call rather than a read followed by a write.
 func (l *Lake) Resolve(ctx context.Context, op Op) (Op, error) {
-	if op.Kind == "createpool" || op.Kind == "init" {
+	if op.Kind == "createpool" || op.Kind == "init" || op.Kind == "query" {
 		return op, nil
 	}
 	id, err := l.Root.PoolID(ctx, op.Pool)
